@@ -36,7 +36,7 @@ class _Interner:
         self.info = {}    # uf name -> (opkey, canonical core, placeholders, bound vars)
         self.neg = {}     # memo of semantic comparisons
 
-    def get(self, opkey, core_term, bvars, n_out, e):
+    def get(self, opkey, core_term, bvars, n_out, e, rng=()):
         """returns app(out_idx) -> z3 term.  The core's free constants (batch indices, N, L, ...) are made explicit
         arguments of the operator symbol, so that substituting a batch index in a result term (vmap / scan-map) is
         sound and so that the same element function at different batch indices shares one symbol."""
@@ -58,7 +58,7 @@ class _Interner:
                 if tried >= 3:
                     break  # semantic matching is a completeness aid only: bounded effort
                 tried += 1
-                st, _ = engine.check_sat(e.pc + e.hyps + [it != core_term], timeout_ms=800, try_abstract=False)
+                st, _ = engine.check_sat(e.pc + e.hyps + list(rng) + [it != core_term], timeout_ms=800, try_abstract=False)
                 res = st == "unsat"
                 self.neg[key] = res
             if res:
@@ -225,7 +225,7 @@ def linear_apply(opname, opparams, A, t_axes, family, out_extra):
             core_term = poly.rebuild_mono(core, canonical=True)
             if core_term is None:
                 core_term = z3.RealVal(1)
-            app = it.get((opname, keyparams), core_term, bv, len(out_idx), e)
+            app = it.get((opname, keyparams), core_term, bv, len(out_idx), e, rng)
             val = app(out_idx)
             coef = poly.rebuild(coefp)
             c = smt.norm(coef)
@@ -262,7 +262,9 @@ def rfftn(x, s=None, axes=None, norm=None):
         b = tuple(idx[ax] for ax in b_axes)
         k = tuple(idx[ax] for ax in axes)
         return CX(gre(b, k), gim(b, k))
-    return SArr(out_shape, fn, "complex")
+    res = SArr(out_shape, fn, "complex")
+    res.cong = (name, axes, (), X)   # provenance for the congruence rule  F(a) == F(b)  <==  a == b
+    return res
 
 
 def irfftn(x, s=None, axes=None, norm=None):
@@ -291,7 +293,9 @@ def irfftn(x, s=None, axes=None, norm=None):
         b = tuple(idx[ax] for ax in b_axes)
         xo = tuple(idx[ax] for ax in axes)
         return smt.radd(g1(b, xo), g2(b, xo))
-    return SArr(tuple(out_shape), fn, "real")
+    res = SArr(tuple(out_shape), fn, "real")
+    res.cong = (name, axes, sparams, Xc)
+    return res
 
 
 # ------------------------------------------------------------------ symbolic reductions
@@ -388,7 +392,7 @@ def opaque_apply(opname, A, extra_key=()):
         else:
             t = smt.zr(smt.R(el))
         keyparams = size_key(e, sizes) + tuple(extra_key)
-        app = interner(e).get((opname, keyparams), t, bv, len(out_idx), e)
+        app = interner(e).get((opname, keyparams), t, bv, len(out_idx), e, rng)
         return app(out_idx)
     return g
 
